@@ -5,6 +5,7 @@ package main
 import (
 	"fmt"
 	"go/types"
+	"regexp"
 	"strings"
 )
 
@@ -43,6 +44,9 @@ func ifaceVal(tag, ref *Term, ty types.Type) Val {
 	return Val{K: VIface, Ty: ty, Fs: []Val{scalar(tag, nil), scalar(ref, nil)}}
 }
 
+var byteRe = regexp.MustCompile(`\bbyte\b`)
+var runeRe = regexp.MustCompile(`\brune\b`)
+
 func typeName(t types.Type) string {
 	s := types.TypeString(t, func(p *types.Package) string {
 		if p.Path() == "github.com/pion/sctp" {
@@ -50,6 +54,9 @@ func typeName(t types.Type) string {
 		}
 		return p.Name()
 	})
+	// byte and rune are aliases: one heap array per underlying element type
+	s = byteRe.ReplaceAllString(s, "uint8")
+	s = runeRe.ReplaceAllString(s, "int32")
 	return s
 }
 
